@@ -1043,6 +1043,9 @@ def gen_C20(g, tier):
             lines.append(f"{c} show unmask unmask p str {ch:02x}")
             lines.append(f"{c} show comp mask p str {ch:02x}")
             lines.append(f"{c} show mask comp p str {ch:02x}")
+        # symbol-level forms incl. the copying ones (Maskable::to_mask / to_unmask, Complement::to_comp)
+        for b in range(256):
+            lines.append(f"{c} sym {b}")
         for n in ([12, 13, 14, 26, 39, 52] if tier == "quick" else list(range(0, 56))):
             t = g.text(c, n)
             base = f"p str {hx(t)}"
